@@ -202,11 +202,26 @@ def agrees(dev, m, got, e):
     return devsim.close(got, e, TOL)
 
 
+def native_tapes(dev, c, tape):
+    """what the device's own preprocessing turns the tape into (a diagnosis aid)"""
+    d = make_device(dev, c["labels"], c["n"], c["devwires"])
+    return list(d.preprocess()[0]([tape])[0])
+
+
 def tape_order_axes(c, tape):
-    """axis permutation `tape wires first, unused device wires after`: the register a device builds when it relabels the
-    wires in order of first use (map_to_standard_wires) instead of using its own wire order"""
-    pos = [c["labels"].index(w) for w in tape.wires]
+    """axis permutation `wires in order of first use, unused device wires after`: the register a device builds when it relabels
+    the wires with map_to_standard_wires (operation wires, then measurement-only wires) instead of using its own wire order"""
+    opw = [w for op in tape.operations for w in op.wires]
+    pos = []
+    for w in opw + list(tape.wires):
+        if c["labels"].index(w) not in pos:
+            pos.append(c["labels"].index(w))
     return pos + [i for i in range(c["n"]) if i not in pos]
+
+
+def has_paulirot_mpo(tapes):
+    """a Pauli rotation on >= 3 wires: default.tensor applies it as a matrix product operator"""
+    return any(op.name in ("PauliRot", "MultiRZ") and len(op.wires) >= 3 for t in tapes for op in t.operations)
 
 
 def diagnose(dev, c, m, got, e, v, ctx):
@@ -218,10 +233,10 @@ def diagnose(dev, c, m, got, e, v, ctx):
     psi = ctx["psi"]
     try:
         if m[0] == "state" and dev != "default.mixed":
-            perm = tape_order_axes(c, ctx["tape"])
-            alt = np.transpose(psi.reshape([2] * n), perm).reshape(-1)
-            if up_to_phase(g_.reshape(-1), alt, 1e-6):
-                return "tape-wire-order"
+            for t2 in native_tapes(dev, c, ctx["tape"])[:1] + [ctx["tape"]]:
+                alt = np.transpose(psi.reshape([2] * n), tape_order_axes(c, t2)).reshape(-1)
+                if up_to_phase(g_.reshape(-1), alt, 1e-6):
+                    return "tape-wire-order"
         if dev == "default.clifford" and m[0] == "dm":
             t = psi.reshape([2] * n)
             keep = [w - 1 for w in m[1]]
@@ -234,14 +249,25 @@ def diagnose(dev, c, m, got, e, v, ctx):
             sa, sb = (devsim.entropy(devsim.reduced_dm(psi, w, n)) for w in (m[1], m[2]))
             if abs(float(g_) - (sa + sb)) < 1e-8:
                 return "entropy-sum"
-        if dev == "default.tensor/mps" and m[0] != "state":
-            d = make_device(dev, c["labels"], n, c["devwires"])
-            (t2,), _ = d.preprocess()[0]([ctx["tape"]])
-            if any(op.name in ("PauliRot", "MultiRZ") and len(op.wires) >= 3 for op in t2.operations):
-                return "paulirot-mpo"           # a Pauli rotation on >= 3 wires is applied as a matrix product operator
+        if dev == "default.tensor/mps" and has_paulirot_mpo(native_tapes(dev, c, ctx["tape"])):
+            return "paulirot-mpo"
     except Exception:  # noqa: BLE001 - a diagnosis aid only
         pass
     return "mismatch"
+
+
+def crash_tag(dev, c, tape):
+    tags = ""
+    try:
+        if dev == "default.tensor/mps" and has_paulirot_mpo(native_tapes(dev, c, tape)):
+            tags += ":paulirot-mpo"
+    except Exception:  # noqa: BLE001 - a diagnosis aid only
+        pass
+    if list(tape.wires) != list(range(len(tape.wires))):
+        tags += ":nonstandard-wires"
+    if c["batch"] is not None:
+        tags += ":broadcast"
+    return tags
 
 
 def shape_req(c, meas, obs):
@@ -358,8 +384,7 @@ def run(tier, seed):
                 raised[f"{dev}:{cls}"] = raised.get(f"{dev}:{cls}", 0) + 1
             else:
                 kinds = "+".join(sorted({m[0] for m in meas}))
-                std = list(tape.wires) == list(range(len(tape.wires)))
-                viol.append(Violation(key=f"{dev}:{kinds}:crash:{cls}" + ("" if std else ":nonstandard-wires") + (":broadcast" if c["batch"] else ""),
+                viol.append(Violation(key=f"{dev}:{kinds}:crash:{cls}" + crash_tag(dev, c, tape),
                                       detail=f"{where} raised {cls}: {str(exc)[:160]} on {opsdesc} measuring {meas}; tape wires {list(tape.wires)}",
                                       replay={"case": c, "device": dev, "measurements": [list(m) for m in meas]}))
             continue
